@@ -130,6 +130,9 @@ def enum_helpers(seed):
                 ("doman", "--dest=/usr/share/man", ["page.1", "page.3"], {"usr/share/man/man1/page.1": F("page.1", 0o644), "usr/share/man/man3/page.3": F("page.3", 0o644)}),
                 ("doman", "--dest=/usr/share/man", ["page.de.1"], {"usr/share/man/de/man1/page.1": F("page.de.1", 0o644)}),
                 ("doman", "--dest=/usr/share/man", ["-i18n=fr", "page.1"], {"usr/share/man/fr/man1/page.1": F("page.1", 0o644)}),
+                # PMS: from EAPI 4 the -i18n option takes precedence over a language code in the file name (which is then kept in the name)
+                ("doman", "--dest=/usr/share/man", ["-i18n=fr", "page.de.1", "page.3"], {"usr/share/man/fr/man1/page.de.1": F("page.de.1", 0o644), "usr/share/man/fr/man3/page.3": F("page.3", 0o644)}),
+                ("doman", "--dest=/usr/share/man", ["page.de.1", "page.1"], {"usr/share/man/de/man1/page.1": F("page.de.1", 0o644), "usr/share/man/man1/page.1": F("page.1", 0o644)}),
                 ("doman", "--dest=/usr/share/man", ["nosection"], None),
                 ("domo", "--dest=/usr/share/locale", ["de.mo"], {"usr/share/locale/de/LC_MESSAGES/pkg.mo": F("de.mo", 0o644)}),
                 ("dodir", "--diroptions=-m0755", ["/var/lib/pkg", "/opt/p/q"], {"var/lib/pkg": ("dir", 0o755), "opt/p/q": ("dir", 0o755)}),
@@ -160,7 +163,7 @@ def enum_helpers(seed):
                     else:
                         open(p + ".real", "w").write("link target data")
                         os.symlink(os.path.basename(p) + ".real", p)
-                seq = rnd.sample(REQS, 8)
+                seq = list(REQS) if round_ == 0 else rnd.sample(REQS, 8)  # round 0: every request once, whatever the seed
                 for hname, opts, args, expect in seq:
                     cases += 1
                     before = snapshot(ED)
